@@ -8,5 +8,5 @@ rm -rf $W
 git -C /repo worktree add --detach -f $W HEAD >/dev/null 2>&1
 mkdir -p $W/_seedkit
 cp -r /verif/harness/stubs $W/_seedkit/stubs
-cp /verif/selftest/seedkit/build_lib.sh $W/_seedkit/
+cp /verif/selftest/seedkit/build_lib.sh /verif/selftest/seedkit/build_lib_xml.sh $W/_seedkit/
 echo $W
